@@ -1078,3 +1078,47 @@ func ruleHashSource(c *Ctx, r *Rep) {
 	}
 	r.Ok("scanned", "", "stores into configuration fields outside the config packages", sprintf("%d", n))
 }
+
+func init() {
+	register(&Rule{Name: "DECODE-DIRECT", Floor: 2, Run: ruleDecodeDirect, Fixture: "fixture.decodeThroughGenericMap",
+		Doc: "the text a configuration struct is decoded from is the document itself (or its YAML-to-JSON conversion), never a re-encoding of a decode into map[string]any / any: such a round trip turns every number into a float64, and a serial number above 2^53 comes back as a different number"})
+}
+
+// ruleDecodeDirect: at every call of a YAML/JSON decoder whose target is a struct of the module, the bytes decoded do
+// not come out of a Marshal call.
+func ruleDecodeDirect(c *Ctx, r *Rep) {
+	pv := c.newProv()
+	decoders := map[string]bool{"encoding/json.Unmarshal": true, "github.com/ghodss/yaml.Unmarshal": true, "sigs.k8s.io/yaml.Unmarshal": true,
+		"gopkg.in/yaml.v2.Unmarshal": true, "gopkg.in/yaml.v3.Unmarshal": true, "sigs.k8s.io/yaml.UnmarshalStrict": true}
+	n := map[string]int{}
+	for _, fn := range c.Funcs {
+		for _, ci := range callsIn(fn) {
+			if !decoders[calleeFullName(ci)] || len(ci.Common().Args) < 2 {
+				continue
+			}
+			target := unwrapIface(ci.Common().Args[1])
+			pt, ok := target.Type().Underlying().(*types.Pointer)
+			if !ok {
+				continue
+			}
+			nt, ok := pt.Elem().(*types.Named)
+			if !ok || !c.IsModObj(nt.Obj()) {
+				continue
+			}
+			if _, isStruct := nt.Underlying().(*types.Struct); !isStruct {
+				continue
+			}
+			var re []string
+			for _, o := range pv.Origins(ci.Common().Args[0]) {
+				for _, m := range []string{"encoding/json.Marshal(", "encoding/json.MarshalIndent(", "yaml.Marshal(", "(*encoding/json.Encoder).Encode("} {
+					if strings.Contains(o, m) {
+						re = append(re, "the bytes come out of "+m+"…)")
+					}
+				}
+			}
+			key := nt.Obj().Name() + "|" + c.FuncKey(fn)
+			n[key]++
+			r.Check(len(re) == 0, sprintf("document-bytes|%s#%d", key, n[key]), c.Pos(ci.Pos()), "the decoder reads the document (or its YAML-to-JSON conversion), not a re-encoded generic value", strings.Join(uniq(re), "; "))
+		}
+	}
+}
